@@ -56,7 +56,7 @@ def _scale_to(v, target=F(2)):
 def fam_flat_body(ctx, fkind, bkind, shape, fr_name, perm, through, dname, wname, swap, method, ufix=None):
     Kc, K, dirs, pts = (setup_body if bkind == 'ConvexPolyhedron' else setup_poly)(shape, fr_name, perm)
     P0 = pts[through]
-    d = _scale_to(dirs[dname.lstrip('-')], F(3))
+    d = _scale_to(dirs[dname.lstrip('-~')], F(3) if '~' not in dname else F(1, 4))      # '~': a short direction vector (|d| ~ 1/4)
     if dname.startswith('-'):            # the same carrier traversed in the opposite sense
         d = R.vscale(F(-1), d)
     w = _scale_to(dirs[wname], F(1)) if wname in dirs else None
@@ -186,6 +186,8 @@ def families(tier, seed):
                     ufs = [None]
                 # half-lines (thorough: segments, lines too) also in the opposite sense along the same carrier
                 senses = [dname] + (['-' + dname] if (fkind == 'HalfLine' and (tier != 'quick' or ti in (0, 2))) or (tier != 'quick' and fkind != 'Point' and ti == 1) else [])
+                if fkind == 'HalfLine' and (tier != 'quick' or ti in (1, 3)):
+                    senses.append('~' + dname)       # the same half-line given by a short direction vector
                 for dn in senses:
                     for uf in ufs:
                         fams.append(Family('%s/%s/%s-%s-%s/%s%s%s' % (fkind, tag, through, dn, wname, 'swap' if swap else 'fwd', '/m' if method else '',
